@@ -12,6 +12,7 @@ import Miden.Generated.ProvingOpts
 import Miden.Model.Serde
 import Miden.Model.Lookup
 import Miden.Model.Asm
+import Miden.Spec.Hashes
 namespace Miden
 
 def joinNats (l : List Nat) : String := ",".intercalate (l.map toString)
@@ -262,6 +263,14 @@ def handle (line : String) : String :=
     let rs := if rows == "-" then [] else (rows.splitOn ";").map parseRow
     let col := Lookup.logUpColumn (⟨alpha.toNat?.getD 0⟩ : GF) (⟨b0.toNat?.getD 0⟩ : GF) rs
     s!"col {joinNats (col.map (·.v))}"
+  | ["refhash", "sha256", bs] =>
+    s!"digest {joinNats (Spec.H.Sha256.hashWords (parseNats (if bs == "-" then "" else bs)))}"
+  | ["refhash", "blake3", bs] =>
+    let bytes := parseNats (if bs == "-" then "" else bs)
+    s!"digest {joinNats (Spec.H.Blake3.hashWords (Spec.H.leWords (bytes ++ List.replicate (64 - bytes.length) 0)) bytes.length)}"
+  | ["refhash", "keccak256", bs] =>
+    let lanes := Spec.H.Keccak.hashLanes (parseNats (if bs == "-" then "" else bs))
+    s!"digest {joinNats (lanes.flatMap fun l => [l / 4294967296, l % 4294967296])}"
   | ["felt", op, a, b] =>
     let a := a.toNat?.getD 0; let b := b.toNat?.getD 0
     let r := if op == "add" then fadd a b else if op == "sub" then fsub a b
